@@ -57,7 +57,7 @@ CHECKS = {
     "C19": dict(level="exploration", engine="fakeredis cluster role",
         technique="runtime monitor: globally ordered per-node effect logs of a multi-node cluster double (routing by independent HASH_SLOT, MIGRATING/IMPORTING/ASK/MOVED/TRYAGAIN semantics) under scripted migration schedules; per-key segment oracle + resume-position clause",
         text="Real RedisOutput with a cluster client against 3-5 node doubles; schedules: none, MOVED between/mid batch, ASK windows with existing/missing keys, back-and-forth, node added; "
-             "blocking/pipelined, transactional/non-transactional; slot-table refresh released between two Puts of one batch; two connection-fault schedules (reset mid-batch, connection lost before the first reply). Two known findings (non-atomic node pipelines: the reported flavour, and the silent bounce inversion of the blocking non-transactional sender) are listed in known_findings.json.",
+             "blocking/pipelined, transactional/non-transactional; slot-table refresh released between two Puts of one batch; two connection-fault schedules (reset mid-batch, connection lost before the first reply); writes with a legal null-bulk reply in every mode. Two known findings (non-atomic node pipelines: the reported flavour, and the silent bounce inversion of the blocking non-transactional sender) are listed in known_findings.json.",
         design="DESIGN.md §3 C19", note="the double enforces 'executed by the owner'; slots from internal/ref.HashSlot; " + TRUST),
     "C05": dict(level="exploration", engine="chanmodel",
         technique="runtime monitor at the Channel boundary of both cache backends against a byte-by-offset model (PRF bytes identify their origin); sequential generated op histories + concurrent writer/readers/collector/pollers under the race detector with interval-bound checks",
@@ -66,7 +66,7 @@ CHECKS = {
         design="DESIGN.md §3 C05", note="workloads stay inside the call protocol RedisInput uses; liveness is judged by logical quiescence (ended reader / starved-by-collector) or by a differential second reader at the stalled offset; a stall without such evidence is inconclusive"),
     "C13": dict(level="exploration", engine="fakeredis propagation",
         technique="two site doubles that propagate what a master would (rewrites, no-op omission, MULTI/EXEC) closed into a loop through two real bisync RedisOutputs; origin-tagged client writes; echo / exactly-once / look-alike / ping-pong oracles decided at two-phase sentinels",
-        text="Replay modes sync/pipeline/parallel, five filter classes incl. the documented prefix whitelist, snapshot and incremental phases, late reverse link, replication-lag windows producing shrunk mirrored transactions, Redis 7 SELECT-inside-MULTI propagation with clients in databases 0-3, link restarts (orderly / lost EXEC reply) through the real start-up path, reference filter projection with byte-identical delivery.",
+        text="Replay modes sync/pipeline/parallel, five filter classes incl. the documented prefix whitelist, snapshot and incremental phases, late reverse link, replication-lag windows producing shrunk mirrored transactions, Redis 7 SELECT-inside-MULTI propagation with clients in databases 0-3, link restarts (orderly / lost EXEC reply) through the real start-up path, reference filter projection with byte-identical delivery. Master heartbeat (PING) in every loop with idle heartbeat rounds in which no unit - empty or not - may be forwarded; twelve directed cases of a link's own unit arriving behind the deletion of its expired marker.",
         design="DESIGN.md §3 C13", note="internal/fakeredis role_propagate models a master's propagation (Redis 6.2/7.2 single-command transaction rule); both sites standalone; " + TRUST),
     "C14": dict(level="fault_enumeration", engine="bisweep",
         technique="request-prefix crash sweep + clean-stop schedule of bisync incremental replay (all three modes) with restart chains through the real start-up bookkeeping; oracles over unit table, frontier/latest/journal keys and StartPoint of successive starts; exhaustive RebuildBisyncFrontier subset check",
@@ -75,7 +75,7 @@ CHECKS = {
         design="DESIGN.md §3 C14", note=TRUST),
     "C16": dict(level="exploration", engine="grpc+channels",
         technique="runtime monitor: real ReplicaLeader behind a real gRPC server (stream wrapped to cut after message k) and real ReplicaFollower over both cache backends; follower cache read back and compared with PRF(run id, offset) and with the leader",
-        text="54 leader x follower state pairs x 4 backend combinations, live appends, cuts at every k of small transfers, leader restarts under another id, fresh-process reopen of disk followers.",
+        text="54 leader x follower state pairs x 4 backend combinations, live appends, cuts at every k of small transfers, leader restarts under another id, fresh-process reopen of disk followers. Source fail-over (+CONTINUE new id) before the first request / after the snapshot / while tailing, judged against the joined history; second phase with channel.verifyCrc and a leader log rotating under the follower's tail.",
         design="DESIGN.md §3 C16", note="non-contiguity decided by API probes, never by a stall timer"),
     "C07": dict(level="fault_enumeration", engine="sweep",
         technique="runtime monitor over the ordered list of <runid>_offset writes observed at the target, idle-heavy feeding plans and restart sequences",
